@@ -36,19 +36,35 @@ func main() {
 			// *osm.OSM: read as a section (o.Nodes ...), written as the one element it holds (osm_lit)
 			"OSM": {Coq: "section", Ctor: "osm_lit", Defaults: map[string]string{"Nodes": "[]", "Ways": "[]", "Relations": "[]"},
 				Fields: [][2]string{{"Nodes", "s_nodes"}, {"Ways", "s_ways"}, {"Relations", "s_rels"}}},
-			"Change": {Coq: "gchange", Fields: [][2]string{{"Create", "gc_create"}, {"Modify", "gc_modify"}, {"Delete", "gc_delete"}}},
+			"Change": {Coq: "gchange", OptionFields: map[string]bool{"Create": true, "Modify": true, "Delete": true},
+				Fields: [][2]string{{"Create", "gc_create"}, {"Modify", "gc_modify"}, {"Delete", "gc_delete"}}},
 		},
 		Types:   map[string]string{"ActionType": "atype"},
+		EqFns:   map[string]string{"ActionType": "atype_eqb"},
 		Globals: map[string]string{"osm.ActionCreate": "TCreate", "osm.ActionModify": "TModify", "osm.ActionDelete": "TDelete"},
+		Calls: map[string]*tr.CallMap{
+			// the data source answers with the pair (history, err); err = 0 for nil
+			"HistoryDatasourcer.NodeHistory":     {Tmpl: "(a_hist, a_err)"},
+			"HistoryDatasourcer.WayHistory":      {Tmpl: "(a_hist, a_err)"},
+			"HistoryDatasourcer.RelationHistory": {Tmpl: "(a_hist, a_err)"},
+			// (old, err) of findPreviousX read off the model's find_previous_elem (tied to gen_find_previous_* separately)
+			"findPreviousNode":     {Tmpl: "(fp_pair (find_previous_elem a_ds $4 $2))", OptionResult: []bool{true, false}},
+			"findPreviousWay":      {Tmpl: "(fp_pair (find_previous_elem a_ds $4 $2))", OptionResult: []bool{true, false}},
+			"findPreviousRelation": {Tmpl: "(fp_pair (find_previous_elem a_ds $4 $2))", OptionResult: []bool{true, false}},
+			// x.FeatureID(): the element stands for its id
+			"Node.FeatureID": {Tmpl: "$0"}, "Way.FeatureID": {Tmpl: "$0"}, "Relation.FeatureID": {Tmpl: "$0"},
+		},
+		ErrCallsBy: map[string]*tr.ErrCall{
+			"checkErr": {Term: "(check_err a_nft $2 $3 $4)", OkPat: "None", ErrPat: "Some v_e", ErrVar: "v_e"},
+		},
+		SumCallsBy:  map[string]string{"addUpdate": "(gen_add_update a_nft a_ds $2 $3 $4 $6)"},
+		OpaqueTypes: map[string]map[string]string{"Options": {"IgnoreMissingChildren": "a_ign"}},
 	}
-	fp := func(key, name, elemVar, call, listVar string) *tr.LFunc {
+	fp := func(key, name, elemVar, listVar string) *tr.LFunc {
 		return &tr.LFunc{Key: key, Name: name, Result: "fpg_res",
 			Params:     [][2]string{{"a_hist", "list elem"}, {"a_err", "Z"}},
 			SkipParams: map[string]bool{"ctx": true, "ds": true},
-			Atoms: map[string]string{
-				call:         "(a_hist, a_err)",
-				"err != nil": "(negb (Z.eqb v_err 0))",
-			},
+			Atoms: map[string]string{"err != nil": "(negb (Z.eqb v_err 0))"},
 			Returns: map[string]string{
 				"nil, err": "(FPG_DsErr v_err)",
 				"nil, nil": "FPG_Nil",
@@ -57,9 +73,9 @@ func main() {
 			}}
 	}
 	fns := []*tr.LFunc{
-		fp("findPreviousNode", "gen_find_previous_node", "n", "ds.NodeHistory(ctx, n.ID)", "nodes"),
-		fp("findPreviousWay", "gen_find_previous_way", "w", "ds.WayHistory(ctx, w.ID)", "ways"),
-		fp("findPreviousRelation", "gen_find_previous_relation", "r", "ds.RelationHistory(ctx, r.ID)", "relations"),
+		fp("findPreviousNode", "gen_find_previous_node", "n", "nodes"),
+		fp("findPreviousWay", "gen_find_previous_way", "w", "ways"),
+		fp("findPreviousRelation", "gen_find_previous_relation", "r", "relations"),
 		{Key: "checkErr", Name: "gen_check_err", Result: "ce_res",
 			Params:     [][2]string{{"a_err_nil", "bool"}, {"a_not_found", "bool"}},
 			SkipParams: map[string]bool{"ds": true, "err": true, "id": true},
@@ -67,43 +83,19 @@ func main() {
 			Returns:    map[string]string{"nil": "CE_Nil", "&NoVisibleChildError{ID: id}": "CE_NoVisible", "err": "CE_Same"}},
 	}
 	// addUpdate: the data source is the parameter a_ds, ds.NotFound on the typed error a_nft
-	prev := func(fn, v string) (string, string) {
-		return fn + "(ctx, " + v + ", ds, ignoreMissing)", "(fp_pair (find_previous_elem a_ds a_ignoreMissing v_" + v + "))"
-	}
-	chk := func(v string) (string, *tr.ErrCall) {
-		return "checkErr(ds, ignoreMissing, err, " + v + ".FeatureID())",
-			&tr.ErrCall{Term: "(check_err a_nft a_ignoreMissing v_err v_" + v + ")", OkPat: "None", ErrPat: "Some v_e", ErrVar: "v_e"}
-	}
-	addAtoms := map[string]string{"actionType == osm.ActionDelete": "(atype_is_delete a_actionType)"}
-	addErr := map[string]*tr.ErrCall{}
-	for _, kv := range [][2]string{{"findPreviousNode", "n"}, {"findPreviousWay", "w"}, {"findPreviousRelation", "r"}} {
-		k, v := prev(kv[0], kv[1])
-		addAtoms[k] = v
-		ck, ce := chk(kv[1])
-		addErr[ck] = ce
-	}
 	fns = append(fns,
 		&tr.LFunc{Key: "addUpdate", Name: "gen_add_update", Result: "(list action + error)",
 			Params:     [][2]string{{"a_nft", "bool"}, {"a_ds", "datasource"}},
 			SkipParams: map[string]bool{"ctx": true, "ds": true},
-			OptionVars: map[string]bool{"o": true, "old": true},
-			Atoms:      addAtoms, ErrCalls: addErr,
-			Returns:    map[string]string{"actions, nil": "(inl a_actions)", "nil, e": "(inr v_e)"}},
+			OptionVars: map[string]bool{"o": true},
+			Returns:    map[string]string{"$, nil": "(inl $1)", "nil, $": "(inr $2)"}},
 		// Change: the option functions are applied by the caller of the model (a_ign is their
-		// effect on IgnoreMissingChildren); an option returning an error is outside the model
+		// effect on IgnoreMissingChildren: core.Options is an opaque type, the loop over the
+		// parameter opts is not modelled); an option returning an error is outside the model
 		&tr.LFunc{Key: "Change", Name: "gen_change", Result: "result",
 			Params:     [][2]string{{"a_nft", "bool"}, {"a_ds", "datasource"}, {"a_ign", "bool"}},
 			SkipParams: map[string]bool{"ctx": true, "ds": true, "opts": true},
-			OptionVars: map[string]bool{"o": true},
-			SkipStmts:  []string{"computeOpts := &core.Options{}", "for _, o := range opts {"},
-			Atoms: map[string]string{
-				"computeOpts.IgnoreMissingChildren": "a_ign",
-			},
-			SumCalls: map[string]string{
-				"addUpdate(ctx, actions, change.Modify, osm.ActionModify, ds, ignoreMissing)": "(gen_add_update a_nft a_ds v_actions (gc_modify a_change) TModify v_ignoreMissing)",
-				"addUpdate(ctx, actions, change.Delete, osm.ActionDelete, ds, ignoreMissing)": "(gen_add_update a_nft a_ds v_actions (gc_delete a_change) TDelete v_ignoreMissing)",
-			},
-			Returns: map[string]string{"nil, err": "(RErr v_err)", "&osm.Diff{Actions: actions}, nil": "(ROk v_actions)"}})
+			Returns:    map[string]string{"nil, $": "(RErr $2)", "&osm.Diff{Actions: actions}, nil": "(ROk v_actions)"}})
 	text := []byte("(* GENERATED by /verif/translator (cmd/change, tr/loops.go) from /repo — do not edit. *)\n" +
 		"From Coq Require Import ZArith List Bool String.\nFrom Verif Require Import Base.Int64 Base.GenLoop C13.Model C13.GenSupport.\nImport ListNotations.\nOpen Scope Z_scope.\nOpen Scope string_scope.\n\n")
 	text = append(text, tr.EmitLoopFuncs(p, cfg, fns)...)
